@@ -24,4 +24,29 @@ CLAIMED['C13'] = {
     'technique': 'contract-based deductive verification of both programs against shared spec functions (self-generated VCs, z3/cvc5) + bounded differential oracle',
 }
 
+_MATCH_NOTE = (_BASE_NOTE + ' Callee contracts used at the call sites of match() (pure functions of their arguments raising at most '
+               'ExpressionError) are hypotheses here and obligations of C07/C08; regular expressions are opaque (A6).')
+CLAIMED['C01'] = {
+    'category': 'proof',
+    'text': 'Loop invariants over ghost functions Filt/First/TagsU on the real MerchantEngine.match (any number and order of rules, per-rule outcome '
+            'uninterpreted) give the first-match postcondition; least-index, suffix-irrelevance and non-influence lemmas by induction; all VCs discharged. '
+            'normalize_merchant / apply_transforms / legacy CSV loop are covered by the labelled bounded oracle on real rule files.',
+    'level_note': _MATCH_NOTE,
+    'technique': 'contract-based deductive verification (loop invariants + ghost functions, z3/cvc5) + bounded small-scope oracle for the parts not yet under contract',
+}
+CLAIMED['C02'] = {
+    'category': 'proof',
+    'text': 'all_tags == TagsU(k) invariant (set iteration order havocked) and neutrality postconditions on match() in both modes; candidate-list '
+            'comprehensions and max() in most_specific mode under Sel/ArgMax ghost contracts; all VCs discharged; bounded oracle incl. legacy CSV is a labelled extra.',
+    'level_note': _MATCH_NOTE,
+    'technique': 'contract-based deductive verification (loop invariants + ghost functions, z3/cvc5) + bounded small-scope oracle',
+}
+CLAIMED['C09'] = {
+    'category': 'proof',
+    'text': 'calculate_specificity proved equal to the statement\'s ranking key; match() in most_specific mode proved to return the first maximal '
+            'element (ArgMax ghost) of the matching categorizing rules; first-max and adjacent-swap lemmas by induction; all VCs discharged.',
+    'level_note': _MATCH_NOTE + ' max(list, key) is modelled as the fold keeping the first maximal element.',
+    'technique': 'contract-based deductive verification (loop invariants, Sel/ArgMax ghost functions, z3/cvc5) + bounded small-scope oracle over all rule orders',
+}
+
 NOT_APPLICABLE = {}
